@@ -23,6 +23,16 @@ func init() {
 }
 
 var c04SelfTests = []SelfTest{
+	{Name: "key agreement accepts a wiped (all-zero) private key again", ExpectRule: "C04.R6", ExpectKey: "key agreement on a wiped private key", Edits: []Edit{
+		{File: "internal/crypto/crypto.go", Old: "\tif privateKey == ([KeySize]byte{}) {\n\t\treturn [KeySize]byte{}, fmt.Errorf(\"invalid private key: zero key\")\n\t}\n", New: ""},
+	}},
+	{Name: "zero-private-key test only logs (no refusal)", ExpectRule: "C04.R6", ExpectKey: "key agreement on a wiped private key", Edits: []Edit{
+		{File: "internal/crypto/crypto.go", Old: "\tif privateKey == ([KeySize]byte{}) {\n\t\treturn [KeySize]byte{}, fmt.Errorf(\"invalid private key: zero key\")\n\t}\n", New: "\tif privateKey == ([KeySize]byte{}) {\n\t\t_ = fmt.Sprintf(\"zero private key\")\n\t}\n"},
+	}},
+	{Name: "rewrite: zero-private-key refusal written after the remote-key test with the shared zero value", Edits: []Edit{
+		{File: "internal/crypto/crypto.go", Old: "\tif privateKey == ([KeySize]byte{}) {\n\t\treturn [KeySize]byte{}, fmt.Errorf(\"invalid private key: zero key\")\n\t}\n", New: ""},
+		{File: "internal/crypto/crypto.go", Old: "\t\treturn sharedSecret, fmt.Errorf(\"invalid remote public key: zero key\")\n\t}\n", New: "\t\treturn sharedSecret, fmt.Errorf(\"invalid remote public key: zero key\")\n\t}\n\tif zeroKey == privateKey {\n\t\treturn sharedSecret, fmt.Errorf(\"invalid private key: zero key\")\n\t}\n"},
+	}},
 	{Name: "meshConn.Write sends the plaintext chunk", ExpectRule: "C04.R1", ExpectKey: "(*agent.meshConn).Write", Edits: []Edit{
 		{File: "internal/agent/agent.go", Old: "\t\tframe := &protocol.Frame{\n\t\t\tType:     protocol.FrameStreamData,\n\t\t\tStreamID: c.streamID,\n\t\t\tPayload:  ciphertext,\n", New: "\t\t_ = ciphertext\n\t\tframe := &protocol.Frame{\n\t\t\tType:     protocol.FrameStreamData,\n\t\t\tStreamID: c.streamID,\n\t\t\tPayload:  chunk,\n"},
 	}},
@@ -1624,6 +1634,7 @@ func runC04(p *kit.Program, r *kit.Report) {
 	r.Rule("C04.R4", "key lifetime: wherever a session key held in a struct field is wiped in place, the wipe holds the holder's lock in write mode, and every Encrypt with a key read from that field reads the pointer, tests a field the wipe's critical section changes, and seals inside one critical section of the same lock")
 	r.Rule("C04.R5", "every Encrypt call outside internal/crypto uses a key that is, on every data-flow path, a result of DeriveSessionKey (never a zero-value SessionKey, a package-level key or a key of unknown origin)")
 	r.Rule("C04.R3", "the state a relay records holds no key material, and no call that can reach DeriveSessionKey lies on the forwarding path of a relayed open message")
+	c04ConsumedKey(p, r)
 	cx := newC04Ctx(p, r)
 	if cx == nil {
 		return
